@@ -143,7 +143,7 @@ def c05_gt_window(ctx, v):
             if o.kind in ("unsupported", "unwound", "path-limit"):
                 return v.undecided("%s depth=%d: %s" % (o.kind, depth, o.info))
             if o.kind == "panic":
-                v.fail("depth=%d: panic reachable: %s" % (depth, o.info))
+                L.report_panic(v, ex, o, "depth=%d: panic reachable: %s" % (depth, o.info))
                 continue
             if o.kind != "return":
                 continue
